@@ -206,8 +206,11 @@ def run_one(ch, cfg):
             viol.append(("verify/accepted-altered-values", desc + " changed: %s" % changed))
         elif not ok:
             viol.append(("verify/accepted-invalid-chain", desc))
-    st = (platform, faulted, (site or "").split(":")[0], getattr(dev, "legacy_signer", None),
-          getattr(dev, "ui_page", None), tuple(sorted(stages.items())))
+    st = (platform, faulted, site, locals().get("target") if site == "link" else None,
+          getattr(dev, "legacy_signer", None), getattr(dev, "ui_page", None),
+          getattr(dev, "signer_page", None), getattr(dev, "page", None),
+          (len(info["qe_auth"]), info["include_root"]) if platform == "sgx" else None,
+          tuple(sorted(stages.items())))
     return {"violations": viol, "digest": w.log.digest(), "state": st,
             "nontrivial": "verify" in stages, "faults": dict(w.link.stats.faults),
             "probes": {"platform." + platform: 1, "faulted": int(faulted),
